@@ -16,6 +16,7 @@ ADAPTATIONS = [
     "A3 format()/repr()/f-string of a symbolic number (repr: also of a symbolic str) yields the placeholder '<symbolic>' (message text is outside the claim) unless the harness selects the faithful policy",
     "A4 crosshair.register_contract.get_contract swallows TypeError for unhashable callables",
     "A5 param._utils._find_pname returns None and param's logger gets a NullHandler (stack walking/logging only)",
+    "A7 dict(mapping-or-pairs, **kw) with concrete keys builds a real dict (CrossHair's ShellMutableMap moves a re-assigned existing key to the end, which changes iteration order relative to CPython)",
     "A6 PYTHONHASHSEED=0 and the search order is seeded from VERIF_SEED",
 ]
 
@@ -147,6 +148,38 @@ def _setattr(obj, name, value):
         return _orig_setattr(obj, name, value)
     return tp.__setattr__(obj, name, value)
 
+
+# --- A7: dict(...) with concrete keys is a real dict (CPython insertion-order semantics)
+_orig_dict = _core._PATCH_REGISTRATIONS[dict]
+_DMISSING = object()
+
+
+def _concrete_key(k):
+    return not isinstance(k, CrossHairValue) and not (isinstance(k, tuple) and any(isinstance(i, CrossHairValue) for i in k))
+
+
+def _dict(arg=_DMISSING, **kwargs):
+    with NoTracing():
+        real = None
+        if arg is _DMISSING:
+            real = dict(**kwargs)
+        elif type(arg) is dict or (isinstance(arg, dict) and not _is_ch(arg)):
+            if all(_concrete_key(k) for k in arg):
+                real = dict(arg, **kwargs)
+        elif isinstance(arg, (list, tuple)) and not _is_ch(arg):
+            try:
+                if all(isinstance(pr, (tuple, list)) and len(pr) == 2 and _concrete_key(pr[0]) for pr in arg):
+                    real = dict(arg, **kwargs)
+            except TypeError:
+                real = None
+        if real is not None:
+            return real
+    if arg is _DMISSING:
+        return _orig_dict(**kwargs)
+    return _orig_dict(arg, **kwargs)
+
+
+_core._PATCH_REGISTRATIONS[dict] = _dict
 
 _core._PATCH_REGISTRATIONS[getattr] = _getattr
 _core._PATCH_REGISTRATIONS[hasattr] = _hasattr
